@@ -417,6 +417,42 @@ func identName(d *ssa.DebugRef) string {
 	return ""
 }
 
+// everyIterationRuns: inner is nested in outer, and every path from the body of outer
+// back to its head passes through the head of inner (paths that leave outer - break,
+// return - are not completed iterations and are not constrained here).
+func everyIterationRuns(outer, inner *loopInfo) bool {
+	if inner == outer || !outer.blocks[inner.header] {
+		return false
+	}
+	seen := map[*ssa.BasicBlock]bool{}
+	var stack []*ssa.BasicBlock
+	for _, s := range outer.header.Succs {
+		if s == outer.header {
+			return false
+		}
+		if outer.blocks[s] {
+			stack = append(stack, s)
+		}
+	}
+	for len(stack) > 0 {
+		b := stack[len(stack)-1]
+		stack = stack[:len(stack)-1]
+		if b == inner.header || seen[b] {
+			continue
+		}
+		seen[b] = true
+		for _, s := range b.Succs {
+			if s == outer.header {
+				return false // back at the head without having met the nested loop
+			}
+			if outer.blocks[s] {
+				stack = append(stack, s)
+			}
+		}
+	}
+	return true
+}
+
 func (f *Frame) loopSpec(li *loopInfo) *LoopSpec {
 	if f.top && f.loopCon != nil {
 		// verifying against an interface-method contract: the loop invariants are
@@ -480,6 +516,24 @@ func (f *Frame) enterLoop(li *loopInfo, b *ssa.BasicBlock, preds []*ssa.BasicBlo
 				continue
 			}
 			vc.oblige("inv", fmt.Sprintf("loop%d:%s@entry", li.ordinal, lab), at, t, cl.Line, cl.Src, vc.con.Serves)
+		}
+		// structural clauses: every completed iteration runs the named nested loop
+		for _, run := range spec.Runs {
+			var inner *loopInfo
+			for _, l := range f.loops {
+				if l.ordinal == run.Inner {
+					inner = l
+				}
+			}
+			goal := "false"
+			if inner != nil && everyIterationRuns(li, inner) {
+				goal = "true"
+			}
+			props := vc.con.Serves
+			if run.Serves != nil {
+				props = run.Serves
+			}
+			vc.oblige("structure", fmt.Sprintf("loop%d:runs:loop%d", li.ordinal, run.Inner), at, goal, run.Line, run.Src, props)
 		}
 	}
 	// 3. havoc loop targets
